@@ -120,7 +120,8 @@ pub uninterp spec fn sqrt_spec(x: f64) -> f64;
 pub assume_specification [f64::sqrt] (x: f64) -> (r: f64) ensures r == sqrt_spec(x);
 pub broadcast axiom fn ax_sqrt(x: f64)
     ensures fin(x) && rv(x) >= 0real ==> fin(#[trigger] sqrt_spec(x)) && rv(sqrt_spec(x)) >= 0real
-        && rv(sqrt_spec(x)) * rv(sqrt_spec(x)) == rv(x);
+        && rv(sqrt_spec(x)) * rv(sqrt_spec(x)) == rv(x)
+        && (rv(x) == 0real ==> rv(sqrt_spec(x)) == 0real);   // consequence of r*r == 0 in R; stated so that no nonlinear step is needed
 
 pub uninterp spec fn sign_pos_spec(x: f64) -> bool;
 pub assume_specification [f64::is_sign_positive] (x: f64) -> (r: bool) ensures r == sign_pos_spec(x);
